@@ -128,6 +128,67 @@ def run(tier):
                 rm, rd = requests_for(c, s["program"], nmax, arb, body_vars, monos)
                 index.append((ji, f"{si}:{s['pass']}", arb, len(reqs)))
                 reqs += [rm, rd]
+    # ---- V3: one-step bisimulation of consecutive snapshots, sound for ALL n (theorem Polar.VP.checkSameStep_sound)
+    import copy
+    from fractions import Fraction as Fr
+    vreqs, vmeta = [], []
+    for ji, ((c, o), out) in enumerate(zip(jobs, outs)):
+        if out["status"] != "ok" or not out["result"].get("accepted") or out["result"].get("abstracted"):
+            continue
+        res = out["result"]
+        snaps = [sn for sn in res["snaps"] if sn["program"] is not None]
+        if len(snaps) < 2:
+            continue
+        body_vars, _ = source_monos(c)
+        types = {}
+        for v, vals in res["typedefs"].items():
+            try:
+                types[v] = [H.fr_str(Fr(x)) for x in vals]
+            except Exception:
+                pass
+        s0 = dict(lean_sigma0(c))
+        params = [z for z in res.get("symbols", []) if z in s0]
+        for q in params:
+            types[q] = [s0[q]]
+
+        def prep(pj):
+            pj = copy.deepcopy(pj)
+            for q in params:
+                pj["init"].insert(0, ["assign", q, ["expr", ["num", s0[q]]], ["tt"], q])
+            return pj
+        for a, b in zip(snaps, snaps[1:]):
+            if a["program"] == b["program"]:
+                continue
+            vreqs.append({"op": "same_step", "p": prep(a["program"]), "q": prep(b["program"]), "vars": body_vars,
+                          "types": types, "cap": 4096})
+            vmeta.append((ji, a["pass"] + "->" + b["pass"]))
+        vreqs.append({"op": "same_step", "p": prep(snaps[0]["program"]), "q": prep(snaps[-1]["program"]), "vars": body_vars,
+                      "types": types, "cap": 4096})
+        vmeta.append((ji, "parsed->final"))
+    vans = model_batch_parallel(vreqs, timeout=60) if vreqs else []
+    n_bisim = 0
+    for (ji, label), a in zip(vmeta, vans):
+        c, o = jobs[ji]
+        lab = label.split("->")[1]
+        if not a.get("ok"):
+            chk.count("V3:error:" + str(a.get("error"))[:30])
+        elif a.get("same") is None:
+            chk.count("V3:refused:" + str(a.get("refused"))[:36])
+        elif a["same"]:
+            n_bisim += 1
+            chk.count("V3:same-law-for-all-n:" + lab)
+        else:
+            rec = {"case": c, "options": o, "pass": label, "kind": "one-step-bisimulation-fails", "detail": a.get("why")}
+            fid = attribute(PROP, rec)
+            if fid:
+                chk.known(fid[0], fid[1])
+            else:
+                chk.violation(f"pass {label} (options {o}) is not law-preserving: {a.get('why')}",
+                              {"case": pipeline.case_to_json({k: v for k, v in c.items()}), "text": c["text_used"], "options": o,
+                               "pass": label, "why": a.get("why"),
+                               "how": "harness.tasks.normalize:snapshots on `text`; polar-model op same_step on the two snapshots with "
+                                      "program.typedefs: a typed state and an observed projection whose probabilities differ after one iteration"})
+    chk.obligation("validator:V3-snapshots-bisimilar-for-all-n", lean_ok and (n_bisim > 0 or not vreqs), {"pairs": n_bisim})
     answers = model_batch_parallel(reqs) if reqs else []
     by_job = {}
     for ji, label, arb, pos in index:
